@@ -350,6 +350,29 @@ fn check_text(ctx: &mut Ctx, op: &str, font: &MonoFont, builtin: bool, l: &Lay) 
         let predicted = style.measure_string(line, lp, baseline).next_position;
         let mut scratch = R1::<Rgb565>::unbounded();
         let returned = style.draw_string(line, lp, baseline, &mut scratch).expect("no fault");
+        // ... whatever the target shows of the line: targets that cut the line on the right / on both sides (boxes
+        // that do not start at the origin), draw_iter-only and native (round-5 seed C15-r5-2: an early return at the
+        // first glyph right of the target's box returned that glyph's position)
+        {
+            let mb = style.measure_string(line, lp, baseline).bounding_box;
+            let w3 = (mb.size.width / 3).max(1);
+            for (k, bx) in [
+                Rectangle::new(mb.top_left - Point::new(2, 2), Size::new(w3 + 2, mb.size.height + 4)),
+                Rectangle::new(mb.top_left + Point::new(w3 as i32, -1), Size::new(w3, mb.size.height + 2)),
+                Rectangle::new(mb.top_left - Point::new(9, 0), Size::new(5, mb.size.height.max(1))),
+            ]
+            .iter()
+            .enumerate()
+            {
+                let mut b1 = R1::<Rgb565>::new(*bx);
+                let mut b2 = R2::<Rgb565>::new(*bx);
+                let n1b = style.draw_string(line, lp, baseline, &mut b1).expect("no fault");
+                let n2b = style.draw_string(line, lp, baseline, &mut b2).expect("no fault");
+                ctx.expect(n1b == returned && n2b == returned, "C15:draw-return-depends-on-the-target", || {
+                    format!("box #{} {}: draw_iter-only {:?}, native {:?}, unbounded {:?}", k, fmt_rect(bx), n1b, n2b, returned)
+                });
+            }
+        }
         if obs_case && n > 0 {
             ctx.count("obs:transparent-text-draw-string-returns-trailing-spacing");
             // outside C15's quantifier (custom spaced font, no colours): the suite pins the trailing spacing
@@ -460,7 +483,9 @@ fn quick_fonts() -> Vec<String> {
     v
 }
 fn random_string(rng: &mut Rng) -> String {
-    let alphabet: [&str; 16] = ["A", "b", "W", "i", " ", "\n", "\n", "\r\n", "\r", "\u{e9}", "\u{1F600}", "?", "0", "\u{0}", "\u{ff71}", "~"];
+    // incl. zero-width characters (unmapped in every built-in font: they take a cell like any other unmapped character;
+    // round-5 seed C15-r5-1 skipped them while drawing but not while measuring)
+    let alphabet: [&str; 19] = ["A", "b", "W", "i", " ", "\n", "\n", "\r\n", "\r", "\u{e9}", "\u{1F600}", "?", "0", "\u{0}", "\u{ff71}", "~", "\u{200B}", "\u{FEFF}", "\u{2060}"];
     let len = rng.below(25) as usize;
     let mut s = String::new();
     for _ in 0..len {
